@@ -19,7 +19,9 @@ def use_sandbox(d):
     global REPO, VERIF
     os.makedirs(d, exist_ok=True)
     sh(f"rsync -a --delete --exclude target /repo/ {d}/repo/")
-    sh(f"rsync -a --delete --exclude sim/target --exclude run --exclude replays --exclude .git /verif/ {d}/verif/")
+    # the COMMITTED state of /verif (a half-edited working tree must not be what the mutants are run against)
+    sh(f"rm -rf {d}/verif_export && mkdir -p {d}/verif_export && git -C /verif archive HEAD | tar -x -C {d}/verif_export")
+    sh(f"rsync -a --delete --exclude sim/target --exclude run --exclude replays {d}/verif_export/ {d}/verif/")
     cargo = open(f"{d}/verif/sim/Cargo.toml").read().replace('path = "/repo"', f'path = "{d}/repo"')
     open(f"{d}/verif/sim/Cargo.toml", "w").write(cargo)
     REPO = f"{d}/repo"
